@@ -19,6 +19,7 @@ pub mod c18;
 pub mod c19;
 pub mod c20;
 pub mod common;
+pub mod mixed;
 
 use crate::engine::Check;
 
